@@ -51,12 +51,23 @@ func gen(seed int64) Scenario {
 	if r.Intn(3) == 0 {
 		staleAt = r.Intn(n)
 	}
+	moveAckAt := -1
+	if r.Intn(4) == 0 {
+		moveAckAt = r.Intn(n)
+	}
 	renewAt := -1
 	if r.Intn(3) == 0 {
 		renewAt = r.Intn(n)
 	}
 	for i := 0; i < n; i++ {
 		m := 1 + r.Intn(2)
+		if i == moveAckAt && live[1] {
+			// records are delivered, the partition leaders move, and the acknowledgements leave at once (to the old leaders, before the
+			// client has learned about the move): what the old leader answers must be what the callback reports
+			sc.Steps = append(sc.Steps, Step{Op: "produce", N: 6}, Step{Op: "sleep", Ms: 200}, Step{Op: "poll", M: 1, N: 3},
+				Step{Op: "move", N: 0}, Step{Op: "move", N: 1}, Step{Op: "ack", M: 1, Kind: 1, Pick: 0, N: 4}, Step{Op: "flush", M: 1},
+				Step{Op: "sleep", Ms: 300}, Step{Op: "poll", M: 1, N: 3})
+		}
 		if i == renewAt && live[1] {
 			// a renew goes out, and while it is in flight (answer 2 ms away) the final decision is made; twice, at two
 			// different points of the window, then everything is flushed and the member polls again
@@ -164,7 +175,67 @@ func runScenario(t *testing.T, rec *sim.Recorder, sc Scenario) {
 		}
 		ids := c.TopicInfo("s")
 		// every acknowledgement batch that reaches a broker
-		chaos.OnFrame = func(key, version int16, f []byte) {
+		type pendInfo struct {
+			client  string
+			key     int16
+			version int16
+			ord     map[int32]int // partition -> ordinal of this request among the member's acknowledgement requests for it
+		}
+		var pmu sync.Mutex
+		pend := map[[2]int]pendInfo{}
+		sentOrd := map[string]int{}
+		// what the broker answers to acknowledgements: a per-partition error code means the acknowledgement was refused
+		chaos.OnResp = func(conn int, corr int32, f []byte) {
+			pmu.Lock()
+			pi, ok := pend[[2]int{conn, int(corr)}]
+			delete(pend, [2]int{conn, int(corr)})
+			pmu.Unlock()
+			if !ok || len(f) < 5 {
+				return
+			}
+			body := f[5:] // correlation id, header tags (both responses are flexible in every version)
+			refused := map[int32]int16{}
+			top := int16(0)
+			if pi.key == int16(kmsg.ShareFetch) {
+				resp := kmsg.NewPtrShareFetchResponse()
+				resp.SetVersion(pi.version)
+				if err := resp.ReadFrom(body); err != nil {
+					return
+				}
+				top = resp.ErrorCode
+				for _, rt := range resp.Topics {
+					for _, rp := range rt.Partitions {
+						if rp.AcknowledgeErrorCode != 0 {
+							refused[rp.Partition] = rp.AcknowledgeErrorCode
+						}
+					}
+				}
+			} else {
+				resp := kmsg.NewPtrShareAcknowledgeResponse()
+				resp.SetVersion(pi.version)
+				if err := resp.ReadFrom(body); err != nil {
+					return
+				}
+				top = resp.ErrorCode
+				for _, rt := range resp.Topics {
+					for _, rp := range rt.Partitions {
+						if rp.ErrorCode != 0 {
+							refused[rp.Partition] = rp.ErrorCode
+						}
+					}
+				}
+			}
+			for p, n := range pi.ord {
+				code := refused[p]
+				if code == 0 {
+					code = top
+				}
+				if code != 0 {
+					rec.Ev("acks_refused", "m", pi.client, "p", p, "n", n, "code", code)
+				}
+			}
+		}
+		chaos.OnFrame2 = func(conn int, corr int32, key, version int16, f []byte) {
 			if key != int16(kmsg.ShareFetch) && key != int16(kmsg.ShareAcknowledge) {
 				return
 			}
@@ -223,7 +294,17 @@ func runScenario(t *testing.T, rec *sim.Recorder, sc Scenario) {
 			}
 			if len(bs) > 0 {
 				_ = member
+				pmu.Lock()
+				ord := map[int32]int{}
+				for _, b := range bs {
+					if _, ok := ord[b.P]; !ok {
+						sentOrd[fmt.Sprintf("%s/%d", client, b.P)]++
+						ord[b.P] = sentOrd[fmt.Sprintf("%s/%d", client, b.P)]
+					}
+				}
+				pend[[2]int{conn, int(corr)}] = pendInfo{client, key, version, ord}
 				rec.Ev("acks_sent", "m", client, "batches", bs, "standalone", key == int16(kmsg.ShareAcknowledge))
+				pmu.Unlock()
 			}
 		}
 		_ = ids
@@ -386,7 +467,7 @@ func runScenario(t *testing.T, rec *sim.Recorder, sc Scenario) {
 		}
 		time.Sleep(500 * time.Millisecond)
 		synctest.Wait()
-		chaos.OnFrame = nil
+		chaos.OnFrame2, chaos.OnResp = nil, nil
 		c.Close()
 		rec.Ev("end")
 		time.Sleep(2 * time.Second)
